@@ -168,6 +168,14 @@ def gen_file(rng, w, depth, outer_syms, earlier_syms):
     if arg is None:
       continue
     st = {'k': 'bind', 'sel': sel, 'arg': arg, 'v': rng.randint(1, 99), '_target': t}
+    if 0.12 <= r < 0.3:
+      # the value is a reference, written with a spelling of its own: `sel.arg = @ref()`
+      rt = rng.choice(targets)
+      rsp = spellings(w, symtab, rt)
+      if rsp:
+        st = {'k': 'bindref', 'sel': sel, 'arg': arg, 'ref': list(rng.choice(rsp)), '_target': t, '_reftarget': rt}
+        stmts.append(st)
+        continue
     if r > 0.9:
       kind = rng.choice(['outer', 'earlier', 'unbound', 'attr', 'arg'])
       if kind == 'outer':
@@ -231,6 +239,8 @@ def render(stmts, tmp, counter):
       lines.append(line)
     elif s['k'] == 'bind':
       lines.append(f'{".".join(s["sel"])}.{s["arg"]} = {s["v"]}')
+    elif s['k'] == 'bindref':
+      lines.append(f'{".".join(s["sel"])}.{s["arg"]} = @{".".join(s["ref"])}()')
     elif s['k'] == 'unit':
       counter[0] += 1
       path = os.path.join(tmp, f'inc{counter[0]}.gin')
@@ -251,7 +261,13 @@ def observe(gin, objs):
       continue
     b = cfgmod._CONFIG.get(('', c.selector), {})  # pylint: disable=protected-access
     if b:
-      rows.append([i, sorted([k, v] for k, v in b.items())])
+      ids = {id(x): k for k, x in enumerate(objs)}
+
+      def enc(v):
+        if isinstance(v, cfgmod.ConfigurableReference):   # a reference is observed as the object it denotes
+          return -(1000 + ids.get(id(v.configurable.wrapped), 10 ** 6))
+        return v
+      rows.append([i, sorted([k, enc(v)] for k, v in b.items())])
   return sorted(rows)
 
 
@@ -348,6 +364,8 @@ def intended(case):
         return
       if s['k'] == 'bind':
         b.setdefault(s['_target'], {})[s['arg']] = s['v']
+      elif s['k'] == 'bindref':
+        b.setdefault(s['_target'], {})[s['arg']] = -(1000 + s['_reftarget'])
       elif s['k'] == 'unit':
         walk(s['body'])
   for u in case['units']:
@@ -379,7 +397,7 @@ def nontrivial(case, impl):
       if s['k'] == 'unit':
         flat.append(('inc', None))
         walk(s['body'], True)
-      elif s['k'] == 'bind':
+      elif s['k'] in ('bind', 'bindref'):
         flat.append(('bind', (s.get('_target'), tuple(s['sel']))))
       if s.get('_expect'):
         flat.append(('bad', None))
@@ -413,7 +431,7 @@ def tally(stats, case, impl):
 def shrink(case):
   for ui, u in enumerate(case['units']):
     for k in range(len(u) - 1, 0, -1):
-      if u[k]['k'] in ('bind', 'unit'):
+      if u[k]['k'] in ('bind', 'bindref', 'unit'):
         yield dict(case, units=case['units'][:ui] + [u[:k] + u[k + 1:]] + case['units'][ui + 1:])
   if len(case['units']) > 1:
     yield dict(case, units=case['units'][:-1])
